@@ -173,8 +173,13 @@ pub fn ttl_for_sig(
     let orig_ttl = sig.data().original_ttl();
     let ttl = min(ttl, orig_ttl);
 
-    let until_expired =
-        sig.data().expiration().into_int() - Timestamp::now().into_int();
+    let now = Timestamp::now();
+    let expiration = sig.data().expiration();
+    let until_expired = if expiration > now {
+        expiration.into_int().wrapping_sub(now.into_int())
+    } else {
+        0
+    };
     let expire_ttl = Ttl::from_secs(until_expired);
     min(ttl, expire_ttl)
 }
